@@ -24,6 +24,7 @@
 #include "scientificinfo.h"
 
 #define PLSCONVERGENCE 1e-8
+#define PLSMAXITER 100000 /* upper bound of NIPALS iterations per latent variable */
 
 /**
  * PLS model data structure
